@@ -24,6 +24,8 @@ type AState struct {
 	Local            [nAccounts]bool
 	Pend, Queue      [nAccounts]AList
 	All              []ATx
+	Heap             []ATx // txPricedList.items in array order
+	Stales           int
 }
 
 // intrinsicGas is what the code under test charges for a plain transfer without data (params.TxGas), read from the
@@ -89,6 +91,8 @@ func Observe(w *World, pool *core.TxPool) *AState {
 		}
 	}
 	s.All = w.AbsList(sn.All)
+	s.Heap = w.AbsList(sn.PricedItems)
+	s.Stales = sn.PricedStales
 	sort.Slice(s.All, func(i, j int) bool { return lessTx(s.All[i], s.All[j]) })
 	return s
 }
@@ -115,8 +119,8 @@ func (s *AState) String() string {
 		}
 		ac = append(ac, fmt.Sprintf("%d:%d:%d:%d", s.CNonce[i], s.Balance[i], s.PNonce[i], l))
 	}
-	return fmt.Sprintf("gp=%d mg=%d ac=%s pe=%s qu=%s all=%s", s.GasPrice, s.MaxGas, strings.Join(ac, ";"),
-		renderLists(&s.Pend), renderLists(&s.Queue), renderTxs(s.All))
+	return fmt.Sprintf("gp=%d mg=%d ac=%s pe=%s qu=%s all=%s ph=%s ps=%d", s.GasPrice, s.MaxGas, strings.Join(ac, ";"),
+		renderLists(&s.Pend), renderLists(&s.Queue), renderTxs(s.All), renderTxs(s.Heap), s.Stales)
 }
 
 type key struct{ S, N int }
@@ -284,8 +288,11 @@ func (s *AState) validNow(t ATx) bool {
 }
 
 // CheckReorg: after a reset from old to new head every transaction of discarded \ included that is still valid must be
-// in pending ∪ queue, unless its slot is held by a competitor (at most one per sender and nonce) — judged only when no
-// limit can have been binding during the reset (slack) and the reorganisation is within the pool's 64 block horizon.
+// in pending ∪ queue, unless its slot is held by a competitor (at most one per sender and nonce). Judged exactly where the
+// theorems apply (Props/C15: reorg_reinjects, reorg_reinjects_local): within the pool's 64 block horizon, and either the
+// pool has room — what is pooled plus what is re-injected fits AccountQueue, GlobalQueue and GlobalSlots, so the pool never
+// fills up (the only refusal of a valid transaction with a free slot is full-pool-and-underpriced) and no limit binds — or
+// the sender is local (exempt from every limit, never underpriced).
 func CheckReorg(pre, post *AState, cfg ACfg, disc, inc []ATx, oldNum, newNum uint64) []clauseFail {
 	d := oldNum - newNum
 	if newNum > oldNum {
@@ -305,12 +312,13 @@ func CheckReorg(pre, post *AState, cfg ACfg, disc, inc []ATx, oldNum, newNum uin
 		}
 	}
 	total := uint64(len(pre.All) + len(re))
-	if total >= cfg.GlobalSlots || total >= cfg.GlobalQueue || total >= cfg.AccountQueue {
-		return nil
-	}
+	room := total <= cfg.GlobalSlots && total <= cfg.GlobalQueue && total <= cfg.AccountQueue
 	var out []clauseFail
 	occ := post.occupants()
 	for _, t := range re {
+		if !room && !pre.Local[t.S] {
+			continue
+		}
 		if !post.validNow(t) || post.pooled(t) {
 			continue
 		}
